@@ -177,13 +177,35 @@ def gen_invalid(rng, kind, maxops):
     return kind + '|' + ' '.join(toks)
 
 
-def gen_exhaustive(maxlen):
-    """every sequence of <= maxlen ops from a small alphabet over 3 values (thorough tier)"""
+ALPHA16 = ['u0', 'u1', 'o', 'i0,2', 'i-1,2', 'i1,1', 'd0', 'd-1', 's0,2', 'r1', 'r0', 't', 'z1', 'z2', 'cL:1,0', 'y']
+ALPHA7 = {'A': ['u0', 'u1', 'o', 'i0,2', 'i-1,2', 'd0', 't'],
+          'L': ['u0', 'u1', 'o', 'i0,2', 'i-1,2', 'd0', 'r1'],
+          'T': ['u0', 'u1', 'o', 'i0,2', 'i-1,2', 'd0', 't']}
+
+
+def gen_exhaustive(alpha, maxlen):
+    """every sequence of <= maxlen ops from a small alphabet over the values 0,1,2 (thorough tier;
+    sequences that leave the in-range contract are still run: the model is compared throughout,
+    the specification up to the first out-of-range operation)"""
     import itertools
-    alpha = ['u0', 'u1', 'o', 'i0,2', 'i-1,2', 'i1,1', 'd0', 'd-1', 's0,2', 'r1', 'r0', 't', 'z1', 'z2', 'cL:1,0', 'y']
     for n in range(1, maxlen + 1):
         for ops in itertools.product(alpha, repeat=n):
             yield ops
+
+
+def parallel(run, jobs=4):
+    """run the chunks of a case list in `jobs` concurrent processes (order preserved)"""
+    from concurrent.futures import ThreadPoolExecutor
+
+    def go(cases):
+        if len(cases) < 64:
+            return run(cases)
+        k = (len(cases) + jobs - 1) // jobs
+        chunks = [cases[i:i + k] for i in range(0, len(cases), k)]
+        with ThreadPoolExecutor(jobs) as ex:
+            outs = list(ex.map(run, chunks))
+        return [l for o in outs for l in o]
+    return go
 
 
 # ---------------------------------------------------------------- transcript handling
@@ -302,9 +324,9 @@ def run(ctx):
     ctx.coq()
     drv = ctx.build_driver('Seq')
     h = ctx.build_harness('seq_wb.c', whitebox='Array')
-    run_impl = lambda cs: ctx.run_lines(h, cs)[1]
-    run_model = lambda cs: ctx.run_lines(drv, cs, args=['model'])[1]
-    run_spec = lambda cs: ctx.run_lines(drv, cs, args=['spec'])[1]
+    run_impl = parallel(lambda cs: ctx.run_lines(h, cs)[1])
+    run_model = parallel(lambda cs: ctx.run_lines(drv, cs, args=['model'])[1], 2)
+    run_spec = parallel(lambda cs: ctx.run_lines(drv, cs, args=['spec'])[1], 2)
     d = vlib.Differential(ctx, 'seq', run_impl, run_model, run_spec, oracle, corr, nontrivial, split, join)
     rp = os.environ.get('VERIF_REPLAY')
     if rp:
@@ -355,12 +377,16 @@ def run(ctx):
     if not quick:
         ex = []
         for kind in KINDS:
-            for ops in gen_exhaustive(4):
+            for ops in gen_exhaustive(ALPHA16, 4):
                 ex.append(kind + '|' + ' '.join(ops))
-        for i in range(0, len(ex), 4000):
-            d.feed(ex[i:i + 4000])
-        ctx.cov['exhaustive'] = ('bounded search (not a proof): all sequences of <= 4 operations from a 16-operation alphabet '
-                                 'over values 0,1,2 per container: %d cases' % len(ex))
+            for ops in gen_exhaustive(ALPHA7[kind], 6):
+                if len(ops) > 4:
+                    ex.append(kind + '|' + ' '.join(ops))
+        for i in range(0, len(ex), 8000):
+            d.feed(ex[i:i + 8000])
+        ctx.cov['exhaustive'] = ('bounded search (not a proof): per container every sequence of <= 4 operations from the '
+                                 '16-operation alphabet %s and every sequence of 5 or 6 operations from the 7-operation alphabet '
+                                 '%s over the values 0,1,2: %d cases' % (ALPHA16, ALPHA7, len(ex)))
 
     def extra(dd):
         for kind in KINDS:
